@@ -121,6 +121,18 @@ def shapes(tier, seed):
         for d in (dests if not quick else pick_dests(6)):
             for b in rnd.sample(leaves + cl, 4 if quick else 12):
                 out.append(["aug", d, op, b])
+    # register + constant is a special node of the generator (address sums):
+    # arithmetic on top of it
+    regs = [l for l in leaves if l[0] == "R"]
+    sums = []
+    for r_ in regs:
+        for c in (3, -3, 0x7fffffff):
+            for op1 in "+-":
+                for op2 in ("+", "-", "*"):
+                    for t in (["C", 5], ["C", -7], rnd.choice(leaves)):
+                        sums.append(["bin", op2, ["bin", op1, r_, ["C", c]], t])
+    for e in (rnd.sample(sums, 60) if quick else sums):
+        out.append(["set", rnd.choice(dests), e])
     # depth 2: seeded sample
     n2 = 600 if quick else 6000
     atoms = leaves + cl
